@@ -236,6 +236,8 @@ impl StateRestorer {
                     }
                 }
                 EventPayload::WorkerLost(worker_id, reason) => {
+                    // The connection record of the worker may have been pruned
+                    self.max_worker_id = self.max_worker_id.max(worker_id.as_num());
                     if reason.is_failure() {
                         for job in self.jobs.values_mut() {
                             job.increase_crash_counters(worker_id);
@@ -277,6 +279,10 @@ impl StateRestorer {
                     rv_id,
                 } => {
                     log::debug!("Replaying: TaskStarted {task_id} {instance_id} {worker_ids:?}");
+                    // The connection records of these workers may have been pruned
+                    for worker_id in &worker_ids {
+                        self.max_worker_id = self.max_worker_id.max(worker_id.as_num());
+                    }
                     if let Some(job) = self.jobs.get_mut(&task_id.job_id()) {
                         // The crash counter accumulates over all executions of the task
                         let crash_counter = job
